@@ -196,18 +196,27 @@ def run(ctx):
                 ctx.violation({'calls': idx, 'choices': getattr(s2, 'choices', [])[:400], 'thread': t, 'tags': ['concurrent-calls'],
                                'clause': 'concurrent-result-differs-from-sequential'},
                               'thread %d of concurrent calls %s (%s) got %r instead of %r' % (t, idx, label, str(got[t])[:120], str(expected[idx[t]])[:120]))
-                return len(s2.events), False
-        return len(s2.events), True
+                return s2.events, False
+        return s2.events, True
     pairs = [(i, j) for i in range(len(CALLS)) for j in range(len(CALLS))]
     if quick:
         pairs = [p for p in pairs if p[0] in (0, 1, 5) and p[1] in (0, 1, 6)]
     for (i, j) in pairs:
         # every single pre-emption of the first call by the whole second call
-        nsteps, ok = conc([i, j], sched.nonpreemptive({}), 'seq')
+        evs, ok = conc([i, j], sched.nonpreemptive({}), 'seq')
         nconc += 1
-        ks = list(range(1, nsteps))
-        if len(ks) > (40 if quick else 400):
-            ks = sorted(set(ks[:15] + rng.sample(ks, (25 if quick else 385))))
+        # pre-emption points: for every distinct code location thread 0 stops at, its first and last
+        # occurrence (plus a random one): covers every window between two gated lines
+        occ = {}
+        for step, e in enumerate(evs[2:]):       # events 0,1 are the initial gates; event n+2 is produced by controller step n
+            if e['t'] == 0:
+                occ.setdefault((e['f'], e['w']), []).append(step + 1)
+        ks = set()
+        for loc, lst in occ.items():
+            ks.update([lst[0], lst[-1], rng.choice(lst)])
+            if not quick:
+                ks.update(lst[:6])
+        ks = sorted(k for k in ks if k >= 1)
         for k in ks:
             if not ok:
                 break
